@@ -727,7 +727,10 @@ func (h *vC03Hist) opBackoff() {
 		h.desc = append(h.desc, fmt.Sprintf("fail-question#%d %v", id, s))
 	}
 	step := func() {
-		ms := []int{1, 4999, 5000, 5001, 9999, 10000, 10001, 14999, 15001, 19999, 20001, 39999, 40001, 80001}[r.Intn(14)]
+		// both sides of every generation's retry-after (5/10/20/40 s) and of the idle period after which the
+		// streak restarts (retry-after + 40 s: 45, 50, 60, 80 s after the record)
+		ms := []int{1, 4999, 5000, 5001, 9999, 10000, 10001, 14999, 15001, 19999, 20000, 20001, 39999, 40000, 40001,
+			44999, 45000, 45001, 49999, 50000, 50001, 60000, 80000, 80001}[r.Intn(24)]
 		h.now = h.now.Add(time.Duration(ms) * time.Millisecond)
 		h.ops = append(h.ops, fmt.Sprintf("OpClock %d", ms))
 		h.desc = append(h.desc, fmt.Sprintf("clock +%dms", ms))
